@@ -11,6 +11,7 @@ the method of its own name with the same arguments, binary_operation falls back 
 reflected name of the regular table with swapped operands, unary operators have no fallback.
 """
 import ast
+import os
 import z3
 
 from pyvc import SObj, ClassVal, Builtin, PyRaise, FuncVal, Unsupported
@@ -153,6 +154,40 @@ def run(chk):
     for k in ("guppylang_internals.tracing.state:get_tracing_state", "guppylang_internals.tracing.unpacking:guppy_object_from_py",
               "guppylang_internals.checker.errors.type_errors:BinaryOperatorNotDefinedError"):
         e.models.pop(k, None)
+
+    # ---- completeness: every operator / builtin that regular mode resolves through a dunder method has its Python
+    # protocol method on the traced values (else the comptime body dies in the interpreter with a TypeError where
+    # the regular body compiles): the operator tables of the checker, forward and reflected, and the Python
+    # builtins the std library dispatches by dunder (abs, bool, divmod, float, int, len, pow, round)
+    obj_tree = ast.parse(open(os.path.join(chk.repo, "guppylang-internals/src/guppylang_internals/tracing/object.py")).read())
+    mixin = [c for c in obj_tree.body if isinstance(c, ast.ClassDef) and c.name == "DunderMixin"][0]
+    have = {f.name for f in mixin.body if isinstance(f, ast.FunctionDef)}
+    ec_tree = ast.parse(open(os.path.join(chk.repo, "guppylang-internals/src/guppylang_internals/checker/expr_checker.py")).read())
+    tables = {}
+    for st in ec_tree.body:
+        tg = st.targets[0] if isinstance(st, ast.Assign) else st.target if isinstance(st, ast.AnnAssign) else None
+        if isinstance(tg, ast.Name) and tg.id in ("binary_table", "unary_table") and getattr(st, "value", None) is not None:
+            tables[tg.id] = [c.value for n in ast.walk(st.value) if isinstance(n, ast.Tuple) for c in n.elts if isinstance(c, ast.Constant) and isinstance(c.value, str) and c.value.startswith("__")]
+    std_dunders = set()
+    for fn_ in ("builtins.py", "num.py"):
+        pth = os.path.join(chk.repo, "guppylang/src/guppylang/std", fn_)
+        if os.path.exists(pth):
+            for n in ast.walk(ast.parse(open(pth).read())):
+                if isinstance(n, ast.Call) and ast.unparse(n.func) == "DunderChecker" and n.args and isinstance(n.args[0], ast.Constant):
+                    std_dunders.add(n.args[0].value)
+    PY_PROTOCOL = {"__abs__": ["__abs__"], "__bool__": ["__bool__"], "__divmod__": ["__divmod__", "__rdivmod__"], "__float__": ["__float__"], "__int__": ["__int__"], "__len__": ["__len__"],
+                   "__pow__": ["__pow__", "__rpow__"], "__round__": ["__round__"]}
+    need = set(tables.get("binary_table", [])) | set(tables.get("unary_table", [])) | {m_ for d_ in std_dunders for m_ in PY_PROTOCOL.get(d_, [])}
+    chk.record("DunderMixin:operator-tables-and-std-dunders-found", len(tables.get("binary_table", [])) >= 20 and len(std_dunders) >= 6, f"{len(need)} protocol methods needed", kind="reachability")
+    # __len__ lives on the two object classes themselves; `@` is outside "operations available in both modes": definitions
+    # share the mixin and `T @ owned` in annotations relies on them NOT answering __matmul__ (Python then asks the flag's __rmatmul__)
+    missing = sorted(need - have - {"__len__", "__matmul__", "__rmatmul__"})
+    o_ = chk.record("DunderMixin:defines-the-Python-protocol-method-of-every-operator-and-dunder-dispatched-builtin-of-regular-mode", not missing, "missing: " + ", ".join(missing) if missing else f"{len(need)} methods",
+                    func=f"{MOD}:DunderMixin", backend="structural")
+    if missing:
+        from pyvc.report import run_replay
+        res_ = run_replay(REPLAY_PROTOCOL, {}, chk.repo, timeout=900)
+        o_.replay = {"confirmed": bool(res_.get("violates")), "script": REPLAY_PROTOCOL, "input": {}, "native": res_}
 
     # ---- mocked builtins: GuppyObject -> dunder; anything else -> the real builtin
     e.func_info(BM, "int.__new__")
@@ -578,6 +613,34 @@ except Exception as ex:
     out = {"violates": True, "observed": type(ex).__name__ + ": " + str(ex)[:160]}
 shutil.rmtree(d, ignore_errors=True)
 out["required"] = "int(), float() and len() of a struct defining the dunder give the same value in both modes"
+print(json.dumps(out))
+'''
+
+
+REPLAY_PROTOCOL = r'''
+import guppy_plainbool
+import tempfile, importlib.util, os, sys, shutil
+BODY = "    q, r = divmod(17, x)\n    q2, r2 = divmod(x, 3)\n    return q * 10000 + r * 1000 + q2 * 100 + r2 * 10 + int(round(f)) + abs(-x)\n"
+src = """from guppylang import guppy
+from guppylang.std.builtins import result
+@guppy.comptime
+def c(x: int, f: float) -> int:
+""" + BODY + """@guppy
+def r(x: int, f: float) -> int:
+""" + BODY + """@guppy
+def main() -> None:
+    result("regular", r(5, 2.6)); result("comptime", c(5, 2.6))
+"""
+d = tempfile.mkdtemp(dir=os.environ.get("TMPDIR", "/var/tmp")); fn = os.path.join(d, "replay_c21b.py"); open(fn, "w").write(src)
+spec = importlib.util.spec_from_file_location("replay_c21b", fn); m = importlib.util.module_from_spec(spec); sys.modules["replay_c21b"] = m
+spec.loader.exec_module(m)
+try:
+    ent = {t: int(v) for t, v in list(m.main.emulator(n_qubits=1).run().results)[0].entries}
+    out = {"violates": ent.get("comptime") != ent.get("regular"), "observed": ent}
+except Exception as ex:
+    out = {"violates": True, "observed": type(ex).__name__ + ": " + str(ex)[:160]}
+shutil.rmtree(d, ignore_errors=True)
+out["required"] = "divmod (either operand order), round and abs of traced values give what the regular body gives"
 print(json.dumps(out))
 '''
 
